@@ -28,6 +28,7 @@ type ModItem struct {
 	Captured string // captured variable of a closure (its cell)
 	Elems bool   // elems(x): backing array of slice x
 	MapOf bool   // mapof(m): contents of map m
+	MapHeap bool // mapheap(m): contents of every map of m's type
 	Text  string
 }
 
@@ -42,6 +43,9 @@ type Contract struct {
 	Inv     map[int][]*Clause
 	Asserts map[string][]*Clause // keyed "call <callee>#k" -> clauses asserted before that call
 	After   map[string][]*Clause // ghost updates / assumptions are not allowed; only asserts (checked) after call
+	Allocates []string
+	HasAllocates bool
+	Freezes []*CExpr
 	Invokes []*InvokeClause
 	Maintains []*Clause
 	Preserves []*Clause
@@ -154,7 +158,7 @@ func (cs *ContractSet) parseContractFile(file, pkgPath string) error {
 	// join continuation lines: a line whose first token is not a keyword continues the previous one
 	keywords := map[string]bool{"func": true, "props": true, "requires": true, "ensures": true, "modifies": true, "invariant": true,
 		"trusted": true, "arith": true, "inline": true, "pred": true, "ghost": true, "owner": true, "flagchan": true, "assert": true,
-		"invokes": true, "preserves": true, "maintains": true, "sort": true, "effect": true, "monitor": true, "locks": true, "inmonitor": true, "pure": true, "blocking": true, "note": true, "lemma": true, "params": true, "spec": true, "axiom": true}
+		"allocates": true, "freezes": true, "invokes": true, "preserves": true, "maintains": true, "sort": true, "effect": true, "monitor": true, "locks": true, "inmonitor": true, "pure": true, "blocking": true, "note": true, "lemma": true, "params": true, "spec": true, "axiom": true}
 	var joined []item
 	for _, it := range items {
 		f := strings.Fields(it.text)
@@ -211,15 +215,9 @@ func (cs *ContractSet) parseContractFile(file, pkgPath string) error {
 			}
 			label := ""
 			text := rest
-			if strings.HasPrefix(text, "[") {
-				if k := strings.Index(text, "]"); k > 0 {
-					label = text[1:k]
-					text = strings.TrimSpace(text[k+1:])
-				}
-			}
 			site := ""
 			if kw == "assert" {
-				// assert at call <callee>#k: expr
+				// assert at call <callee>#k: [label] expr
 				if !strings.HasPrefix(text, "at ") {
 					return perr(fmt.Errorf("assert needs 'at <site>:'"))
 				}
@@ -229,6 +227,12 @@ func (cs *ContractSet) parseContractFile(file, pkgPath string) error {
 				}
 				site = strings.TrimSpace(text[3:k])
 				text = strings.TrimSpace(text[k+2:])
+			}
+			if strings.HasPrefix(text, "[") {
+				if k := strings.Index(text, "]"); k > 0 {
+					label = text[1:k]
+					text = strings.TrimSpace(text[k+1:])
+				}
 			}
 			e, err := parseCExpr(text)
 			if err != nil {
@@ -272,7 +276,12 @@ func (cs *ContractSet) parseContractFile(file, pkgPath string) error {
 			if err != nil {
 				return perr(err)
 			}
-			cur.Inv[n] = append(cur.Inv[n], &Clause{Text: text, Expr: e, Label: label, File: file, Line: it.line})
+			var iprops []string
+			if lf := strings.Fields(label); len(lf) > 1 {
+				label = lf[0]
+				iprops = lf[1:]
+			}
+			cur.Inv[n] = append(cur.Inv[n], &Clause{Text: text, Expr: e, Label: label, Props: iprops, File: file, Line: it.line})
 		case "modifies":
 			if cur == nil {
 				return perr(fmt.Errorf("modifies outside func"))
@@ -300,6 +309,12 @@ func (cs *ContractSet) parseContractFile(file, pkgPath string) error {
 						return perr(err)
 					}
 					mi.Expr, mi.Elems = e, true
+				case strings.HasPrefix(part, "mapheap(") && strings.HasSuffix(part, ")"):
+					e, err := parseCExpr(part[8 : len(part)-1])
+					if err != nil {
+						return perr(err)
+					}
+					mi.Expr, mi.MapHeap = e, true
 				case strings.HasPrefix(part, "mapof(") && strings.HasSuffix(part, ")"):
 					e, err := parseCExpr(part[6 : len(part)-1])
 					if err != nil {
@@ -515,6 +530,27 @@ func (cs *ContractSet) parseContractFile(file, pkgPath string) error {
 			}
 			cs.Sorts[f[1]] = true
 			cur = nil
+		case "allocates":
+			// allocates T1, T2 | allocates none : struct types of the whole objects this function may allocate
+			if cur == nil {
+				return perr(fmt.Errorf("allocates outside func"))
+			}
+			cur.HasAllocates = true
+			for _, t := range strings.Split(rest, ",") {
+				if t = strings.TrimSpace(t); t != "" && t != "none" {
+					cur.Allocates = append(cur.Allocates, t)
+				}
+			}
+		case "freezes":
+			// freezes <slice expr>: the callee retains the slice; its backing array must not be written afterwards
+			if cur == nil {
+				return perr(fmt.Errorf("freezes outside func"))
+			}
+			e, err := parseCExpr(rest)
+			if err != nil {
+				return perr(err)
+			}
+			cur.Freezes = append(cur.Freezes, e)
 		case "inmonitor":
 			cur.TouchesOwned = true
 		case "flagchan":
